@@ -41,3 +41,15 @@ claim('C18', 'other',
 claim('C19', 'proof',
       "Empty frames (__CPROVER_assigns()) of both operator()s, GetCDF and GetHarmonicNum relative to *this, determinism of GetCDF (two evaluations agree), constructor contract 'throws iff max < min' with arithmetic-safety obligations, member-wise copy/move contracts; static AST facts (defaulted special members) re-checked on every run.",
       TB + ZB + "uniform_real_distribution is stateless w.r.t. results (assumed libstdc++ fact).", "CBMC code contracts (frame conditions) + static AST facts", "3 C19")
+
+IDN = "Flags are a block of symbolic length K <= 2^10 (MiniSat; cvc5 reaches 2^20); every flag access first takes an arbitrary value unless the invariant pins the cell (my own flag; the flag of the skolem other running thread). shared_ptr/weak_ptr are modelled by a ghost generation (assumed library contract: expired() <=> no owner left). "
+claim('C05', 'proof',
+      "Contract of the claim loop over a symbolic-capacity flag array under interference: returned id < K, obtained by a 0->1 exchange performed by me, different from the id of any other running thread (skolem), unchanged on later calls without touching the flags.",
+      TB + IDN, "CBMC code contracts (loop contract over symbolic capacity, rely/guarantee on the flag cells)", "3 C05")
+claim('C14', 'proof',
+      "Safety part: the thread-exit destructor clears exactly the flag it owns (frame = that one cell), a flag becomes true only in the claim step of its new owner; a free slot that the loop visits is claimed. Termination of GetThreadID under contention and the probe-order coverage are assumed (liveness / no loop counter to state it).",
+      TB + IDN + "Assumed: fair termination of the claim loop; the probe sequence (start+1+j) mod K visits all slots.", "CBMC code contracts (frame + guarantee assertions)", "3 C14")
+claim('C15', 'proof',
+      "Exit-path ordering obligation (the reservation flag is released only after my heartbeat generation died), only SetID creates a generation, GetHeartBeat returns a weak reference to my live generation.",
+      TB + IDN + "The cross-thread conclusion (when I am given id k every earlier heartbeat for k is expired) is the same obligation seen from the other thread (rely/guarantee symmetry, paper argument).",
+      "CBMC code contracts + ghost heartbeat generations; replay through the atomic-interposition scheduler", "3 C15")
